@@ -48,6 +48,7 @@ func profileFor(prop string, tier string) *Profile {
 	p.HoldPct = 4
 	switch prop {
 	case "C01":
+		p.W["multi"] = 8
 		p.Replicas, p.NodeFaults = 2, true
 		p.FaultPct = 15
 		p.Noise = 4
@@ -610,7 +611,8 @@ func (g *Gen) genTx(w *World) []TxSpec {
 		if g.pct(14) {
 			return []TxSpec{g.multiSignerTx(w)}
 		}
-		if g.pct(12) {
+		// rejected multi-target transactions are where the order of metered reads matters (C01)
+		if g.pct(map[bool]int{true: 35, false: 12}[g.Prop == "C01"]) {
 			if ts, ok := g.multiPurchaseTx(w); ok {
 				return []TxSpec{ts}
 			}
